@@ -75,6 +75,10 @@ type Op struct {
 	Ver string `json:"ver,omitempty"` // version string
 	N   int64  `json:"n,omitempty"`   // target height / dh / amount
 	Dt  int64  `json:"dt,omitempty"`  // seconds
+	// only for k = "end": validators jailed through valset.Jail by another module's end-blocker that runs
+	// BEFORE valset's (consensus: missed attestations) resp. AFTER it (paloma: missing chain infos)
+	Pre  []int `json:"pre,omitempty"`
+	Post []int `json:"post,omitempty"`
 }
 
 type History struct {
@@ -113,6 +117,10 @@ type world struct {
 	since   map[int]int64 // first processed end-block at which the validator was seen unjailed (after being jailed / absent)
 	prevUnj map[int]bool
 	minVer  string
+	jailRec map[int]jailRec // last jailing through valset.Jail, by the schedule of the property text
+	unjailH map[int]int64   // height of the last unjail event
+	legacyParsed bool       // a seeded legacy blob was understood by the oracle (20-byte addresses, 21-byte stride)
+	nEsc, nReset, nSoonAfterUnjail int
 
 	stAtCheck [4]int
 	terms []string
@@ -165,6 +173,8 @@ func newWorld(t *testing.T, h History) *world {
 	w.lastKA = map[int]int64{}
 	w.since = map[int]int64{}
 	w.prevUnj = map[int]bool{}
+	w.jailRec = map[int]jailRec{}
+	w.unjailH = map[int]int64{}
 	w.minVer = "v1.11.3"
 	// whale for later delegations
 	w.whale = sdk.AccAddress(bytes.Repeat([]byte{0xEE}, 20))
@@ -191,6 +201,9 @@ func (w *world) addVal(i int) {
 	w.fund(acc, w.h.Tokens[i])
 	pk := ed25519.GenPrivKeyFromSecret(append([]byte("c12-cons-"), a...)).PubKey()
 	w.cons[i] = sdk.ConsAddress(pk.Address())
+	if bytes.Equal(w.cons[i], a) {
+		w.t.Fatalf("validator %d: consensus address equals operator address", i)
+	}
 	m := skywaykeeper.NewTestMsgCreateValidator(a, pk, sdkmath.NewInt(w.h.Tokens[i]))
 	if _, err := w.stk.CreateValidator(w.ctx, m); err != nil {
 		w.t.Fatalf("create validator %d: %v", i, err)
@@ -250,8 +263,76 @@ func relNs(t time.Time) int64 {
 	return t.Sub(baseTime).Nanoseconds()
 }
 
-type snapState struct {
-	jailed []bool
+type jailRec struct {
+	d  time.Duration
+	at time.Time
+}
+
+// the fixed schedule of the property text (independent of the keeper's table)
+var specTable = []time.Duration{time.Minute, 5 * time.Minute, 15 * time.Minute, time.Hour, 24 * time.Hour}
+
+func specNext(d time.Duration) time.Duration {
+	for _, s := range specTable {
+		if d < s {
+			return s
+		}
+	}
+	return specTable[len(specTable)-1]
+}
+
+func specThreshold(d time.Duration) time.Duration {
+	return max(30*time.Minute, d+d/20)
+}
+
+// noteValsetJailing is the direct oracle for the sentence schedule: called right after a successful
+// jailing through valset.Jail (inactivity sweep or another module); the sentence is observed on the
+// slashing signing info (jailed-until minus block time), the expectation comes from the harness's own
+// record of the validator's previous valset jailing.
+func (w *world) noteValsetJailing(i int, how string) {
+	now := w.ctx.BlockTime()
+	si, err := w.in.SlashingKeeper.GetValidatorSigningInfo(w.ctx, w.cons[i])
+	if err != nil {
+		w.violate("C12:sentence-schedule", fmt.Sprintf("validator %d jailed (%s) at height %d but has no slashing signing info: %v", i, how, w.ctx.BlockHeight(), err))
+		return
+	}
+	got := si.JailedUntil.Sub(now)
+	want := specTable[0]
+	rec, has := w.jailRec[i]
+	prev := "no previous valset jailing"
+	if has {
+		age := now.Sub(rec.at)
+		thr := specThreshold(rec.d)
+		if age < thr {
+			want = specNext(rec.d)
+			w.nEsc++
+		} else {
+			w.nReset++
+		}
+		prev = fmt.Sprintf("previous valset jailing %s earlier with sentence %s (reset threshold %s)", age, rec.d, thr)
+	}
+	if got != want {
+		w.violate("C12:sentence-schedule", fmt.Sprintf(
+			"validator %d (operator %s, consensus %s) jailed (%s) at height %d: jailed-until is block time + %s, the schedule gives %s; %s",
+			i, hex.EncodeToString(w.addr[i]), hex.EncodeToString(w.cons[i]), how, w.ctx.BlockHeight(), got, want, prev))
+	}
+	w.jailRec[i] = jailRec{d: want, at: now}
+}
+
+// valsetJail: another module jails through valset.Jail
+func (w *world) valsetJail(i int, how string) {
+	// only for validators that have a slashing signing info (have been bonded), as in production
+	if !(w.live[i] && w.everBonded[i]) {
+		return
+	}
+	was := w.val(i).IsJailed()
+	err := w.k.Jail(w.ctx, w.addr[i], "verif: "+how)
+	if err == nil {
+		if was {
+			w.violate("C12:jailed-twice", fmt.Sprintf("valset.Jail succeeded for validator %d which was already jailed", i))
+		}
+		w.noteValsetJailing(i, how)
+	}
+	w.terms = append(w.terms, fmt.Sprintf("C12.OJail %d %s", i, emit.Bool(err == nil)))
 }
 
 func (w *world) violate(id, what string) {
@@ -317,6 +398,7 @@ func (w *world) apply(op Op) {
 			if err := w.in.StakingKeeper.Unjail(w.ctx, w.cons[op.I]); err != nil {
 				w.t.Fatal(err)
 			}
+			w.unjailH[op.I] = h
 			w.terms = append(w.terms, fmt.Sprintf("C12.OUnjail %d", op.I))
 		}
 	case "extjail":
@@ -327,12 +409,8 @@ func (w *world) apply(op Op) {
 			w.terms = append(w.terms, fmt.Sprintf("C12.OExtJail %d", op.I))
 		}
 	case "jail":
-		// another module jailing through valset.Jail (e.g. missed attestations); only for validators
-		// that have a slashing signing info (have been bonded), as in production
-		if w.live[op.I] && w.everBonded[op.I] {
-			err := w.k.Jail(w.ctx, w.addr[op.I], "verif: other reason")
-			w.terms = append(w.terms, fmt.Sprintf("C12.OJail %d %s", op.I, emit.Bool(err == nil)))
-		}
+		// another module jailing through valset.Jail in a transaction (e.g. evm balance attestation)
+		w.valsetJail(op.I, "other module, tx")
 	case "delegate":
 		if w.live[op.I] {
 			_, err := w.stk.Delegate(w.ctx, &stakingtypes.MsgDelegate{
@@ -366,6 +444,9 @@ func (w *world) endBlock(op Op) {
 		w.t.Fatal(err)
 	}
 	w.emitEnv()
+	for _, i := range op.Pre {
+		w.valsetJail(i, "other module, end-blocker before valset's")
+	}
 	n := len(w.addr)
 	preJ := make([]bool, n)
 	preSt := make([]int, n)
@@ -410,6 +491,10 @@ func (w *world) endBlock(op Op) {
 		newly := !preJ[i] && j // jailed by the valset end-block (only the inactivity sweep jails there)
 		if newly {
 			w.nJail++
+			w.noteValsetJailing(i, "inactivity sweep")
+			if uh, ok := w.unjailH[i]; ok && h-uh <= 30 {
+				w.nSoonAfterUnjail++ // observation (d): no violation of C12 as stated
+			}
 			if !check {
 				w.violate("C12:jailed-outside-check", fmt.Sprintf("validator %d jailed by the end-block of height %d, not a liveness-check height", i, h))
 			}
@@ -419,7 +504,7 @@ func (w *world) endBlock(op Op) {
 			if _, seen := w.since[i]; !seen {
 				w.since[i] = h
 			}
-			if w.h.Legacy == nil && h-w.since[i] <= 30 {
+			if (w.h.Legacy == nil || w.legacyParsed) && h-w.since[i] <= 30 {
 				w.violate("C12:grace-jailed", fmt.Sprintf("validator %d jailed for inactivity at height %d, unjailed only since %d", i, h, w.since[i]))
 			}
 		}
@@ -465,7 +550,15 @@ func (w *world) endBlock(op Op) {
 	} else {
 		w.lastBlob = blobTerm
 	}
-	w.terms = append(w.terms, fmt.Sprintf("C12.OEnd %d %d %s %d %s %s", op.N, op.Dt*1_000_000_000, obsTerm, rank(w.minVer), blobTerm, emit.Bool(hasLegacy)))
+	if len(op.Post) == 0 {
+		w.terms = append(w.terms, fmt.Sprintf("C12.OEnd %d %d %s %d %s %s", op.N, op.Dt*1_000_000_000, obsTerm, rank(w.minVer), blobTerm, emit.Bool(hasLegacy)))
+	} else {
+		w.terms = append(w.terms, fmt.Sprintf("C12.OEnd 0 0 %s %d %s %s", obsTerm, rank(w.minVer), blobTerm, emit.Bool(hasLegacy)))
+		for _, i := range op.Post {
+			w.valsetJail(i, "other module, end-blocker after valset's")
+		}
+		w.terms = append(w.terms, fmt.Sprintf("C12.OTick %d %d", op.N, op.Dt*1_000_000_000))
+	}
 	w.setCtx(h+op.N, w.ctx.BlockTime().Add(time.Duration(op.Dt)*time.Second))
 }
 
@@ -480,6 +573,35 @@ func runHistory(t *testing.T, h History) *world {
 	}
 	for i := 0; i < h.N0; i++ {
 		w.addVal(i)
+	}
+	if h.Legacy != nil {
+		// What the earlier binary wrote: 20-byte addresses joined by ','.  The oracle reads it by position
+		// (21-byte stride), not by splitting: a member WITHOUT 0x2c counts as "unjailed for long" (no grace
+		// period is due), everybody else is newly unjailed at the first end-block (theorem
+		// legacy_block_only_grants: a member with 0x2c gets a spurious grace period once).
+		b, _ := hex.DecodeString(*h.Legacy)
+		if len(b) == 0 || len(b)%21 == 20 {
+			w.legacyParsed = true
+			for k := 0; k+20 <= len(b); k += 21 {
+				if k > 0 && b[k-1] != ',' {
+					w.legacyParsed = false
+				}
+			}
+		}
+		if w.legacyParsed {
+			for k := 0; k+20 <= len(b); k += 21 {
+				m := b[k : k+20]
+				if bytes.IndexByte(m, 0x2c) >= 0 {
+					continue
+				}
+				for i := 0; i < h.N0; i++ {
+					if bytes.Equal(m, w.addr[i]) {
+						w.prevUnj[i] = true
+						w.since[i] = -1 << 40
+					}
+				}
+			}
+		}
 	}
 	for _, op := range h.Ops {
 		w.apply(op)
@@ -638,9 +760,99 @@ func genHistory(r *rand.Rand, search bool) History {
 		case x < 20:
 			dt = int64(1 + r.Intn(40))
 		}
-		h.Ops = append(h.Ops, Op{K: "end", N: dh, Dt: dt})
+		e := Op{K: "end", N: dh, Dt: dt}
+		// valset.Jail from the end-blocker of a module that runs before (consensus) / after (paloma) valset's
+		switch x := r.Intn(100); {
+		case x < 6:
+			e.Pre = []int{pick()}
+		case x < 12:
+			e.Post = []int{pick()}
+		}
+		h.Ops = append(h.Ops, e)
 		height += dh
 	}
+	return h
+}
+
+// genLadder: the sentence ladder.  Five to seven equal validators (20 % or less each), one of them
+// silent; it is jailed by the sweep at height 60, then again and again — by the sweep after a fresh grace
+// period, or through valset.Jail by another module (transaction, end-blocker before / after valset's) —
+// with the time since the previous jailing aimed at the reset threshold of the expected sentence
+// (max(30 min, d + d/20)) minus / plus one second, exactly on it, or anywhere.
+func genLadder(r *rand.Rand) History {
+	var h History
+	n := 5 + r.Intn(3)
+	comma := r.Intn(2) == 0
+	for i := 0; i < n+1; i++ {
+		h.Addrs = append(h.Addrs, hex.EncodeToString(genAddr(r, comma && r.Intn(2) == 0)))
+		h.Tokens = append(h.Tokens, 2_000_000)
+	}
+	h.N0, h.H0 = n, 1
+	victim := r.Intn(n)
+	height := int64(1)
+	begin := func() { h.Ops = append(h.Ops, Op{K: "begin"}) }
+	end := func(N, dt int64, pre, post []int) {
+		h.Ops = append(h.Ops, Op{K: "end", N: N, Dt: dt, Pre: pre, Post: post})
+		height += N
+	}
+	begin()
+	for i := 0; i < n; i++ {
+		if i != victim {
+			h.Ops = append(h.Ops, Op{K: "keepalive", I: i, Ver: "v2.0.0"})
+		}
+	}
+	end(1, 2, nil, nil)
+	for height <= 60 { // the end-block of height 60 jails the silent validator: first sentence
+		begin()
+		end(1, 2, nil, nil)
+	}
+	d := specTable[0]
+	for k := 3 + r.Intn(5); k > 0; k-- {
+		thr := int64(specThreshold(d) / time.Second)
+		var target int64 // seconds between the previous jailing and the next one
+		switch x := r.Intn(10); {
+		case x < 3:
+			target = thr - 1
+		case x < 5:
+			target = thr
+		case x < 6:
+			target = thr + 1
+		case x < 8:
+			target = 40 + r.Int63n(thr-40)
+		default:
+			target = thr + r.Int63n(thr)
+		}
+		// this is the block right after the jailing, 2 s later
+		begin()
+		h.Ops = append(h.Ops, Op{K: "unjail", I: victim})
+		switch r.Intn(4) {
+		case 0: // by the sweep, at the first check height after the new grace period
+			hc := ((height + 31 + 9) / 10) * 10
+			end(hc-height, target-2, nil, nil)
+			begin()
+			end(1, 2, nil, nil)
+		case 1:
+			end(1, target-2, nil, nil)
+			begin()
+			h.Ops = append(h.Ops, Op{K: "jail", I: victim})
+			end(1, 2, nil, nil)
+		case 2:
+			end(1, target-2, nil, nil)
+			begin()
+			end(1, 2, []int{victim}, nil)
+		default:
+			end(1, target-2, nil, nil)
+			begin()
+			end(1, 2, nil, []int{victim})
+		}
+		if target < thr {
+			d = specNext(d)
+		} else {
+			d = specTable[0]
+		}
+	}
+	begin()
+	end(1, 2, nil, nil)
 	return h
 }
 
@@ -734,6 +946,9 @@ func TestCorr(t *testing.T) {
 		for i := 0; i < run.N; i++ {
 			hs = append(hs, genHistory(run.Rng, search))
 		}
+		for i := 0; i < (run.N+4)/5; i++ {
+			hs = append(hs, genLadder(run.Rng))
+		}
 	}
 	for _, h := range hs {
 		w := runHistory(t, h)
@@ -747,6 +962,9 @@ func TestCorr(t *testing.T) {
 		run.Count("inactivity_jailings", fmt.Sprint(min(w.nJail, 5)))
 		run.Count("protected_skips", fmt.Sprint(min(w.nProt, 3)))
 		run.Count("legacy_seed", fmt.Sprint(h.Legacy != nil))
+		run.Count("sentences_escalated", fmt.Sprint(min(w.nEsc, 5)))
+		run.Count("sentences_reset", fmt.Sprint(min(w.nReset, 5)))
+		run.Count("sweep_jailed_within_30_blocks_of_unjail_event", fmt.Sprint(min(w.nSoonAfterUnjail, 3)))
 		for st, c := range w.stAtCheck {
 			for ; c > 0; c-- {
 				run.Count("silent_unjailed_at_check_by_status", []string{"?", "unbonded", "unbonding", "bonded"}[st])
